@@ -24,6 +24,9 @@ META = {
 
 def run(ctx):
     repo = ctx.repo
+    from ..report import reuse as _reuse
+    from . import c08 as _c08
+    _reuse(ctx, lambda c: _c08.inf_rule(c), ("C08.inf",), "C09w", "incremental-weight rule shared with C08: a NaN weight makes log_weights raise inside determine_beta / resample")
     S = repo.cls("aspire.samples:SMCSamples")
     m = S.resolve("resample")
     if m is None:
